@@ -283,7 +283,7 @@ V("desc-benign-count-before", ["C06"], DS, "benign",
 # ---- C07 / C05 / C08 / C02 kernel shape ------------------------------------------------------------------
 DEF = "ffcx/codegeneration/definitions.py"
 ACC = "ffcx/codegeneration/access.py"
-K = ["ACCUMULATE-ONLY", "NO-MUTABLE-STATIC", "ACCESSOR-ONLY", "PREFIX-OFFSETS", "SLOT-RESTRICTION", "MACRO-DOUBLING", "BOUND-SAMESRC", "GEN-INTEGRAL", "GEN-TABLES"]
+K = ["ACCUMULATE-ONLY", "NO-MUTABLE-STATIC", "ACCESSOR-ONLY", "PREFIX-OFFSETS", "SLOT-RESTRICTION", "MACRO-DOUBLING", "GEN-BLOCKS", "GEN-DEFS", "GEN-EXPR", "GEN-INTEGRAL", "GEN-TABLES"]
 V("ker-assign-on-A", ["C07", "C01"], K, "fire", (IG, "                body.append(L.AssignAdd(A[multi_index], expression))", "                body.append(L.Assign(A[multi_index], expression))"))
 V("ker-expr-assign-on-A", ["C07", "C04"], K, "fire", (EG, "                    quadparts.append(L.AssignAdd(A[multi_index], Brhs))", "                    quadparts.append(L.Assign(A[multi_index], Brhs))"))
 V("ker-table-not-const", ["C07"], K, "fire", (IG, "        return [L.ArrayDecl(table_symbol, values=table, const=True)]", "        return [L.ArrayDecl(table_symbol, values=table)]"))
@@ -312,11 +312,10 @@ V("ker-coordinate-stride-gdim", ["C02"], K + ["GEN-DEFS"], "fire", (DEF, "      
 V("ker-shape-not-doubled", ["C02", "C08"], K, "fire", (REP, "            expression_ir[\"tensor_shape\"] = [2 * dim for dim in argument_dimensions]", "            expression_ir[\"tensor_shape\"] = [dim for dim in argument_dimensions]"))
 V("ker-minus-shift-all-terminals", ["C02"], K, "fire",
   (ET, "        if mt.restriction == \"-\" and isinstance(mt.terminal, ufl.classes.FormArgument):", "        if mt.restriction == \"-\":"))
-V("ker-loop-bound-other-table", ["C08"], K, "fire",
-  (DEF, "        ic = create_dof_index(tabledata, ic_symbol)\n\n        # Get properties of tables", "        ic = create_dof_index(self.access.last_table, ic_symbol)\n\n        # Get properties of tables"))
-V("ker-dof-range-first-axis", ["C08"], K, "fire", (DEF, "        ranges = [tabledata.values.shape[-1]]", "        ranges = [tabledata.values.shape[-2]]"))
-V("ker-nested-loops-shifted", ["C08"], K, "fire", (LN, "        body = ForRange(indices[i], 0, ranges[i], body=[body])", "        body = ForRange(indices[i], 0, ranges[i - 1], body=[body])"))
-V("ker-A-shape-raw", ["C08"], K, "fire", (IG, "        A_shape = self.ir.expression.tensor_shape", "        A_shape = [len(b) for b in blockmap]"))
+# (ker-loop-bound-other-table referred to an attribute that does not exist - an AttributeError any run shows; removed)
+V("ker-dof-range-first-axis", ["C08"], ["GEN-BLOCKS", "GEN-DEFS", "GEN-EXPR", "GEN-KERNEL", "GEN-KERNEL-FACET"], "fire", (DEF, "        ranges = [tabledata.values.shape[-1]]", "        ranges = [tabledata.values.shape[-2]]"))
+V("ker-nested-loops-shifted", ["C08"], ["GEN-BLOCKS", "GEN-DEFS", "GEN-EXPR", "GEN-KERNEL", "GEN-KERNEL-FACET"], "fire", (LN, "        body = ForRange(indices[i], 0, ranges[i], body=[body])", "        body = ForRange(indices[i], 0, ranges[i - 1], body=[body])"))
+V("ker-A-shape-raw", ["C08"], ["GEN-BLOCKS", "GEN-DEFS", "GEN-EXPR", "GEN-KERNEL", "GEN-KERNEL-FACET"], "fire", (IG, "        A_shape = self.ir.expression.tensor_shape", "        A_shape = [len(b) for b in blockmap]"))
 V("ker-benign-rename-ic", ["C08", "C02"], K, "benign",
   (DEF, "        ic = create_dof_index(tabledata, ic_symbol)\n        iq = create_quadrature_index(quadrature_rule, iq_symbol)\n        FE, tables = self.access.table_access(tabledata, self.entity_type, mt.restriction, iq, ic)\n\n        dof_access = L.Symbol(\"coordinate_dofs\", dtype=L.DataType.REAL)",
         "        dof_idx = create_dof_index(tabledata, ic_symbol)\n        q_idx = create_quadrature_index(quadrature_rule, iq_symbol)\n        FE, tables = self.access.table_access(tabledata, self.entity_type, mt.restriction, q_idx, dof_idx)\n\n        dof_access = L.Symbol(\"coordinate_dofs\", dtype=L.DataType.REAL)"),
@@ -366,7 +365,7 @@ V("be-benign-extra-row-entry", ["C09"], B, "benign", (CF, "        \"erf\": \"er
 
 # ---- C01 / C04 / C10 / C11 ---------------------------------------------------------------------------------
 AN = "ffcx/analysis.py"
-PL = ["PIPE-FLAGS", "FACT-LAWS", "RULE-COHERENCE", "SCOPE-KEY", "QMETA-FLOW", "QMETA-INTERP", "GEN-INTEGRAL-IR", "QRULE-GROUP", "QUAD-FAMILY", "OPT-GATE", "EXPR-LAYOUT", "RULE-SCOPED-NAMES", "STALE-LOOPVAR", "GEN-PARTITION"]
+PL = ["PIPE-FLAGS", "FACT-LAWS", "GEN-KERNEL", "GEN-BLOCKS", "SCOPE-KEY", "QMETA-FLOW", "QMETA-INTERP", "GEN-INTEGRAL-IR", "QRULE-GROUP", "QUAD-FAMILY", "OPT-GATE", "EXPR-LAYOUT", "RULE-SCOPED-NAMES", "STALE-LOOPVAR", "GEN-PARTITION"]
 V("pipe-no-integral-scaling", ["C01"], PL, "fire", (AN, "        do_apply_integral_scaling=True,", "        do_apply_integral_scaling=False,"))
 V("pipe-no-pullbacks", ["C01"], PL, "fire", (AN, "        do_apply_function_pullbacks=True,\n", ""))
 V("pipe-jacobian-not-preserved", ["C01"], PL, "fire", (AN, "        preserve_geometry_types=(ufl.classes.Jacobian,),\n        do_apply_restrictions=True,", "        preserve_geometry_types=(),\n        do_apply_restrictions=True,"))
